@@ -1,11 +1,14 @@
 SPECIFICATION Spec
 CONSTANTS
   MaxLen = 66000
-  Families = {"ids", "names", "san", "decode"}
+  Families = {"ids", "names", "san", "decode", "clock"}
   LegacyStrip = FALSE
+  MaxTick = 2
+  KF_TimeFrozenAtCreation = FALSE
   DumpFile = "vectors.ndjson"
 INVARIANTS
   RoundTrip
   EntrySizes
   VerifyExactly
   SanOnThreshold
+  ValidityJudgedAtVerification
